@@ -79,6 +79,17 @@ let line l =
                               (n (int_of_string pu)) (n (int_of_string pg)) (n (int_of_string now)) in
       rs := rs'; last_key := k;
       print_msg "DEC" rsp
+  | ["DECF"; cred; pu; pg; now; mem; fl] ->
+      (* libmunge's retry loop under a fault plan: Q = request cut, L = reply lost, S = reply send failed *)
+      let c = unhex cred in
+      let members = members_of mem in
+      let is_member u g = List.mem (i u, i g) members in
+      let faults = if fl = "-" then [] else
+        List.map (function "Q" -> ReqCut | "L" -> RspLost | _ -> RspSendFailed) (Stdlib.String.split_on_char ',' fl) in
+      let (rs', r) = munge_decode_under_faults hmac sha1 blk_dec zdecomp !conf is_member c
+                       (n (int_of_string pu)) (n (int_of_string pg)) (n (int_of_string now)) !rs faults in
+      rs := rs'; last_key := None;
+      (match r with Some m -> print_msg "DECF" m | None -> print_endline "DECF SOCKERR")
   | ["PARSE"; cred] ->
       (* structure only: armor, outer, decrypt+MAC, decompress, inner; recovers salt and IV *)
       let c = unhex cred in
